@@ -7,6 +7,7 @@ import AdaVerif.Model.AggSetters
 import AdaVerif.Model.UrlSetters
 import AdaVerif.Model.Protocol
 import AdaVerif.Model.HostSetter
+import AdaVerif.Model.AggHostSetter
 import Driver.UrlCmd
 /- agg.edit <state> <editor> <hexarg> : apply one Model editor to a buffer-with-offsets state.
    state = buf,pe,ue,hs,he,port,ps,ss,hh,opq   (hex buffer, decimal offsets, '-' = omitted) -/
@@ -41,7 +42,8 @@ def wfOf (l : L) : Bool :=
   (!l.dashdot || (!l.auth && !l.opq && l.port.isNone)) &&
   ((l.host ++ (portS l.port ++ (ddS l.dashdot ++ (l.path ++ (queryS l.query ++ fragS l.frag))))).headD 0 != 0x40)
 
-def applyEditor (a : Agg) (ed : String) (x : Bytes) (flags : Option (Bool × Bool) := none) : Option Agg :=
+def applyEditor (a : Agg) (ed : String) (x : Bytes) (flags : Option (Bool × Bool) := none) (idna : Spec.Idna := ⟨fun _ => none⟩) :
+    Option Agg :=
   let special := match flags with | some (sp, _) => sp | none => Spec.isSpecialScheme (getProtocol a).dropLast
   let isFile := match flags with | some (_, fl) => fl | none => getProtocol a == [0x66, 0x69, 0x6C, 0x65, 0x3A]
   match ed with
@@ -68,6 +70,12 @@ def applyEditor (a : Agg) (ed : String) (x : Bytes) (flags : Option (Bool × Boo
     let dflt := if special then Spec.defaultPort (getProtocol a).dropLast else none
     some (setPortM 4000000000 isFile dflt a x).1
   | "consume_prepared_path" => some (consumePreparedPath a (if isFile then 6 else if special then 0 else 1) x)
+  | "set_host" =>
+    let dflt := if special then (Spec.defaultPort (getProtocol a).dropLast).getD 0 else 0
+    some (setHostA false idna 4000000000 special isFile dflt a x).1
+  | "set_hostname" =>
+    let dflt := if special then (Spec.defaultPort (getProtocol a).dropLast).getD 0 else 0
+    some (setHostA true idna 4000000000 special isFile dflt a x).1
   | "clear_pathname" => some (clearPathname a)
   | "set_pathname" => some (setPathnameM 4000000000 (if isFile then 6 else if special then 0 else 1) special a x).1
   | "set_search" => if x.isEmpty then none else some (setSearchM 4000000000 special a x)
@@ -79,13 +87,16 @@ def applyEditor (a : Agg) (ed : String) (x : Bytes) (flags : Option (Bool × Boo
   | "append_base_password" => some (appendBasePassword a x)
   | _ => none
 
-def cmdAggEdit (state ed arg : String) : String :=
+def cmdAggEdit (state ed arg : String) (hintArgs : List String := []) : String :=
   match parseAgg state with
   | none => "bad-state"
   | some a =>
-    match applyEditor a ed (unhexs arg) (parseFlags state) with
+    match applyEditor a ed (unhexs arg) (parseFlags state) (mkIdna (parseHints hintArgs)) with
     | none => "bad-op"
-    | some a' => s!"{dumpAgg a'} shape={if shapeB a' then 1 else 0} wf={if wfOf (abs a') then 1 else 0}"
+    | some a' =>
+      match findMarker (getHostname a') with
+      | some d => s!"need-idna {hexs d}"
+      | none => s!"{dumpAgg a'} shape={if shapeB a' then 1 else 0} wf={if wfOf (abs a') then 1 else 0}"
 
 def cmdAggShape (state : String) : String :=
   match parseAgg state with
